@@ -12,7 +12,9 @@ MANIFEST = dict(
               "+ allocation ledger, and Lean 4 proofs over an allocation monad (all failure oracles) for ported functions with non-trivial cleanup",
     text="fault_enumeration / partial: for each of ~40 scenarios (initialise, compile each construct class and each module import, includes, externals, save, "
          "load, scanner creation, scans with every module on sample files, hex strings on the fast-exec path, matches verified at the end of a block, external redefinition) every allocation made through yr_malloc/yr_calloc/yr_realloc/"
-         "yr_strdup/yr_strndup is failed in turn (quick tier: every k for N<=300, stride+random otherwise; thorough: every k) and the outcome judged: error "
+         "yr_strdup/yr_strndup is failed in turn (quick tier: every k for N<=300, otherwise stride+random plus the first/middle/last allocation of every "
+         "(allocator call site, caller) pair recorded by the counting run; thorough: every k; the static call sites listed by translators/oomsites.py "
+         "are compared with the reached ones and the never-reached ones are reported under allocator_call_sites) and the outcome judged: error "
          "reported or correct completion, no crash, no leak (ledger + LeakSanitizer), objects destroyable, follow-up compile+scan works. "
          "Proof only for the ported functions (Thm/C16.lean: notebook, AC BFS queue loop, hash-table add, rules-level string redefinition, rules loading, "
          "scanner staged construction, the block scanner's verification loops and the fast-exec position list — the last two with their "
@@ -28,7 +30,7 @@ ENV = {"ASAN_OPTIONS": "detect_leaks=1:abort_on_error=0:exitcode=99:allocator_ma
        "UBSAN_OPTIONS": "print_stacktrace=1:halt_on_error=1", "LSAN_OPTIONS": "exitcode=99"}
 
 ALLOC_FRAMES = {"should_fail", "vf_malloc", "vf_calloc", "vf_realloc", "vf_strdup", "vf_strndup", "yr_malloc", "yr_calloc", "yr_realloc",
-                "yr_strdup", "yr_strndup", "backtrace", "ledger_add", "fp_backtrace"}
+                "yr_strdup", "yr_strndup", "backtrace", "ledger_add", "fp_backtrace", "sitemap_note"}
 HELPER_FILES = ("arena.c", "notebook.c", "hash.c", "stack.c", "mem.c", "sizedstr.c", "h_oom.c", "object.c", "strutils.c")
 
 
@@ -102,6 +104,11 @@ def scenarios(repo):
     for nm, txt in SMALL.items():
         sc.append(("compile_small_" + nm, "compile", txt, []))
     sc.append(("compile_regex_dot", "compile", 'rule s { strings: $a = /a.cd/ $b = { 6? 7? 63 64 } condition: any of them }', []))
+    # one concatenation with more than 1024 children: the atom extractor's node stack (stack.c, initial capacity 1024) has to grow
+    longhex = " ".join("%02x" % (16 + i % 200) if i % 97 != 2 else "??" for i in range(1100))
+    sc.append(("compile_long_hex", "compile", 'rule lh { strings: $a = { %s } condition: $a }' % longhex, []))
+    longre = "".join("abcdefghijklmnopqrstuvwxyz0123456789"[i % 36] if i % 101 != 5 else "." for i in range(1100))
+    sc.append(("compile_long_regex", "compile", 'rule lr { strings: $a = /%s/ condition: $a }' % longre, []))
     sc.append(("compile_b64wide", "compile", 'rule b { strings: $e = "hello world" base64 wide $f = "abcd" base64wide ascii wide condition: any of them }', []))
     files = {"pe": "file=" + os.path.join(d, "tiny"), "elf": "file=" + os.path.join(d, "elf_with_imports"), "macho": "file=" + os.path.join(d, "tiny-universal"),
              "dex": "blob=dex", "dotnet": "file=" + os.path.join(d, "0ca09bde7602769120fadc4f7a4147347a7a97271370583586c9e587fd396171")}
@@ -183,6 +190,8 @@ def run_chunk(harness, lines):
         for l in out.splitlines():
             if l.startswith("BEGIN "):
                 begun = l.split(" ", 1)[1].strip()
+            elif l.startswith("SITES "):
+                results.setdefault("__sites__", {})[l.split(" ", 2)[1]] = l.split(" ")[2:]
             elif " sane=" in l:
                 cid = l.split(" ", 1)[0]
                 results[cid] = {"out": l, "crash": None}
@@ -225,7 +234,9 @@ def symbolize(binary, addrs):
             else:
                 fn = l.strip()
                 loc = lines[j + 1].strip() if j + 1 < len(lines) else "?"
-                out[cur].append((fn, os.path.basename(loc.split(" ")[0])))
+                full = loc.split(" ")[0]
+                rel = full.split("/libyara/", 1)[1] if "/libyara/" in full else os.path.basename(full)
+                out[cur].append((fn, os.path.basename(full), rel))
                 j += 2
     return out
 
@@ -352,7 +363,7 @@ def run(tier, replay=None):
     if replay and "scenario" in replay:
         scs = [s for s in scs if s[0] == replay["scenario"]]
     # 1. counting runs
-    count_lines = [case_line("%s.0" % s[0], s, 1, 0) for s in scs]
+    count_lines = [case_line("%s.0" % s[0], s, 1, 0) + " sites=1" for s in scs]
     with ThreadPoolExecutor(16) as ex:
         cres = list(ex.map(lambda sl: run_chunk(harness_of(sl[0]), [sl[1]]), list(zip(scs, count_lines))))
     base = {}
@@ -367,9 +378,36 @@ def run(tier, replay=None):
             found = True
             continue
         base[s[0]] = parse_out(o["out"])
+    # 1b. allocation call paths of every scenario (from the counting runs): which static call sites of the allocator the
+    #     scenario set reaches, and at which k — the quick tier fails the first / a middle / the last allocation of every
+    #     (call site, caller) pair in addition to the stride sample, so a site that is reached once in a long scenario is failed
+    paths = {}      # scenario -> [(frames, first, mid, last, count)]
+    for s, (res, ls) in zip(scs, cres):
+        recs = []
+        for tok in (res.get("__sites__", {}) or {}).get("%s.0" % s[0], []):
+            fr, first, mid, last, cnt = tok.rsplit(":", 4)
+            recs.append(([int(x, 16) for x in fr.split(",") if x], int(first), int(mid), int(last), int(cnt)))
+        paths[s[0]] = recs
+    psym = {f: symbolize(HS[f], {a for s in scs if ("mv=1" in s[3]) == f for rec in paths[s[0]] for a in rec[0]}) for f in (False, True)}
+    site_ks, reached = {}, {}     # scenario -> {(site loc, caller fn): [first, mid, last]};  (file, line) -> {"fn":…, "allocations":…, "scenarios": set}
+    for s in scs:
+        groups_ = {}
+        for fr, first, mid, last, cnt in paths[s[0]]:
+            frames = [f for a in fr for f in psym["mv=1" in s[3]].get(a, []) if f[0] not in ALLOC_FRAMES and f[0] != "??"]
+            if not frames:
+                continue
+            loc = frames[0][2]
+            key = (loc, frames[1][0] if len(frames) > 1 else "-")
+            g = groups_.setdefault(key, [first, mid, last])
+            g[0] = min(g[0], first); g[2] = max(g[2], last)
+            if True:
+                r_ = reached.setdefault(loc, {"fn": frames[0][0], "allocations": 0, "scenarios": set()})
+                r_["allocations"] += cnt; r_["scenarios"].add(s[0])
+        site_ks[s[0]] = groups_
     # 2. fault cases
     chunks = []
     plan = {}
+    planned = {}
     for s in scs:
         if s[0] not in base:
             continue
@@ -381,11 +419,15 @@ def run(tier, replay=None):
             stride = max(1, N // 110)
             ks1 = sorted(set(list(range(1, 40)) + list(range(1, N + 1, stride)) + [r.randint(1, N) for _ in range(60)] + [N - 2, N - 1, N]))
             ks2 = sorted(set([r.randint(1, N) for _ in range(40)] + list(range(1, N + 1, max(1, N // 25)))))
+            directed = sorted({k for g in site_ks.get(s[0], {}).values() for k in g})
+            ks1 = sorted(set(ks1) | set(directed))
+            ks2 = sorted(set(ks2) | {g[0] for g in site_ks.get(s[0], {}).values()})
         else:
             ks1 = list(range(1, N + 1))
             ks2 = list(range(1, N + 1)) if tier != "quick" else sorted(set([r.randint(1, max(N, 1)) for _ in range(40)] + list(range(1, N + 1, max(1, N // 30)))))
         ks1 = [k for k in ks1 if 1 <= k <= N]; ks2 = [k for k in ks2 if 1 <= k <= N]
         plan[s[0]] = {"N": N, "mode1": len(ks1), "mode2": len(ks2)}
+        planned[s[0]] = set(ks1) | set(ks2)
         lines = [case_line("%s.1.%d" % (s[0], k), s, 1, k) for k in ks1] + [case_line("%s.2.%d" % (s[0], k), s, 2, k) for k in ks2]
         per = 60 if s[1] != "init" else 25
         for i in range(0, len(lines), per):
@@ -518,17 +560,52 @@ def run(tier, replay=None):
     for fid, a in sorted(known_agg.items()):
         chk.known(a["f"], "id=%s %s cases=%d example=(scenario=%s mode=%d k=%d) :: %s" % (fid, ",".join(sorted(a["sites"])), a["cases"], a["ex"][0], a["ex"][1], a["ex"][2],
                                                                                   a["f"].get("text", "")[:110]))
+    # static call sites of the allocator (translator) against the call sites the scenarios reach
+    from translators import oomsites as tos
+    listed = tos.alloc_sites(core.REPO)
+    by_file = {}
+    for f_, fn_, ln_, callee_ in listed:
+        by_file.setdefault(f_, []).append(ln_)
+    hit = {}
+    unlisted = []
+    for loc, r_ in reached.items():
+        f_, _, ln_ = loc.rpartition(":")
+        ln_ = int(ln_) if ln_.isdigit() else 0
+        cands = [x for x in by_file.get(f_, []) if x <= ln_ <= x + 4]      # a call spanning lines returns into a later line
+        if cands:
+            h_ = hit.setdefault((f_, max(cands)), {"allocations": 0, "scenarios": set()})
+            h_["allocations"] += r_["allocations"]; h_["scenarios"] |= r_["scenarios"]
+        else:
+            unlisted.append("%s (%s)" % (loc, r_["fn"]))
+    # was the site actually FAILED by some case of this run (not only reached by a counting run)?
+    failed_at = set()
+    for sname, g_ in site_ks.items():
+        pl = planned.get(sname, set())
+        for (loc, caller), ks_ in g_.items():
+            if any(k in pl for k in ks_):
+                f_, _, ln_ = loc.rpartition(":")
+                ln_ = int(ln_) if ln_.isdigit() else 0
+                cands = [x for x in by_file.get(f_, []) if x <= ln_ <= x + 4]
+                if cands:
+                    failed_at.add((f_, max(cands)))
+    never = [(f_, fn_, ln_, c_) for f_, fn_, ln_, c_ in listed if (f_, ln_) not in hit]
+    not_failed = [(f_, fn_, ln_, c_) for f_, fn_, ln_, c_ in listed if (f_, ln_) in hit and (f_, ln_) not in failed_at]
+    site_cov = {"listed": len(listed), "reached": len(listed) - len(never), "failed_by_some_case": len(failed_at),
+                "listed_never_reached": ["%s:%d %s (%s)" % (f_, ln_, fn_, c_) for f_, fn_, ln_, c_ in never],
+                "reached_but_not_failed_in_this_run": ["%s:%d %s" % (f_, ln_, fn_) for f_, fn_, ln_, c_ in not_failed],
+                "reached_through_macros_or_unlisted": sorted(unlisted)[:40]}
     nontrivial = sum(v for k, v in rc_hist.items() if k != "not-reached")
     chk.cov.update({"evaluations": evaluated + len(count_lines), "distinct_nontrivial": nontrivial,
                     "rule": "one case = (scenario, mode, k): the k-th allocation of the scenario's armed operation fails (mode 2: and all later); "
                             "non-trivial = a failure was actually injected (k <= allocations performed)",
                     "scenarios": plan, "outcome_histogram": dict(sorted(rc_hist.items(), key=lambda x: -x[1])),
-                    "failure_groups": summary, "lean_port_tie": tie, "allocations_total": sum(p["N"] for p in plan.values()),
+                    "failure_groups": summary, "allocator_call_sites": site_cov, "lean_port_tie": tie, "allocations_total": sum(p["N"] for p in plan.values()),
                     "exhaustive": tier != "quick" and not replay,
                     "samples": [{"scenario": s[0], "fault_free_run": base.get(s[0])} for s in scs[:2]] +
                                [{"case": l[:300], "result": (res.get(l.split(" ", 1)[0]) or {}).get("out")} for (sc_, lines), (res, ls) in list(zip(chunks, outs))[:3] for l in lines[:1]]})
     core.handle_broken_proof(chk, lres, found)
     chk.assumptions += ["only allocations made through libyara's allocator (yr_malloc & co.) are failed; flex/bison buffers, OpenSSL, authenticode-parser, tlsh call libc directly",
-                        "quick tier samples k for scenarios with more than 300 allocations (stride + random + first 60 + last 2), thorough enumerates every k",
+                        "quick tier samples k for scenarios with more than 300 allocations (stride + random + first 40 + last 3 + first/middle/last allocation of every (call site, caller) pair), thorough enumerates every k",
+                        "%d of %d static allocator call sites in the built library sources are reached by no scenario (listed in coverage.allocator_call_sites.listed_never_reached)" % (len(never), len(listed)),
                         "known findings are keyed by (kind, allocation call site, calling context), not by scenario or k"]
     return chk.finish("fault_enumeration")
